@@ -42,6 +42,9 @@ fn main() {
         println!("ticks: {}", out.ticks);
         return;
     }
+    if cmd == "det-child" {
+        std::process::exit(props::c14::child_main(&args[2], args[3].parse().unwrap_or(0)));
+    }
     if cmd == "c15-calib" {
         props::c15::calibrate();
         return;
